@@ -201,7 +201,10 @@ var _ = pr.AutoF
 //@ func distributeExcessWidth
 //@   props C13
 //@   modifies columnWidths[..]
-//@   trusted "frame only: the excess-width distribution writes to the column width list and nothing else the caller can see"
+//@   assumeframe "the excess-width distribution writes to the column width list and nothing else the caller can see (recursive, not proved)"
+// css-tables-3 §3.9.3.2: percentage columns are scaled by fixedWidth / (100 - sum of percentages) only
+// when that sum is below 100: the divisor is never zero (no infinite or NaN column width)
+//@   assert after ratio#3: percentageWidth < 100 && fixedWidth != 0
 
 // intrinsic widths of a table: min-content <= max-content (assumed: the 300-line computation in
 // preferred.go is not under contract)
